@@ -72,7 +72,7 @@ def c01(tier, seed):
             for l in build_lines(fam, 'c0', r, rng):
                 lines += [l, 'obs c0', '!inv c0']
             yield dict(lines=lines, pool=POOL_NAMES[i % len(POOL_NAMES)], tag='C01 build %s %s' % (r, sorted(map(sorted, fam))), judge=True)
-    nh = 320 if tier == 'quick' else 5000
+    nh = 2000 if tier == 'quick' else 12000
     nops = 25 if tier == 'quick' else 60
     for j in range(nh):
         pool = POOL_NAMES[j % len(POOL_NAMES)]
@@ -163,7 +163,7 @@ def c02(tier, seed):
 # ---------------------------------------------------------------------------------------------------------
 def c03(tier, seed):
     rng = random.Random(seed)
-    nh = 260 if tier == 'quick' else 4000
+    nh = 1500 if tier == 'quick' else 10000
     for j in range(nh):
         pool = POOL_NAMES[j % len(POOL_NAMES)]
         g = HistGen(seed * 7919 + j, pool, invalid=0.05)
@@ -235,7 +235,7 @@ def c04(tier, seed):
         L.do('q c0 closure u77 F F'); L.do('q c0 part u77 F F'); L.do('q c0 disjoint [u77]')
         yield L.case()
     # after deletions and relabelling
-    for j in range(60 if tier == 'quick' else 800):
+    for j in range(400 if tier == 'quick' else 4000):
         pool = POOL_NAMES[j % len(POOL_NAMES)]
         g = history(seed * 31 + j, pool, nops=18, obs_every=0)
         g.lines.append('!lookups c0'); g.out.append('ok')
@@ -325,7 +325,7 @@ def c05(tier, seed):
     rng = random.Random(seed)
     fams = fams_for(tier, rng, 4, 5, 600)
     if tier == 'quick':
-        fams = all_complexes(3) + rng.sample(all_complexes(4), 70)
+        fams = all_complexes(4)
     for i, fam in enumerate(fams):
         pool = POOL_NAMES[i % len(POOL_NAMES)]
         route = ['faces', 'basis'][i % 2]
@@ -357,7 +357,7 @@ def c05(tier, seed):
             L.do('obs c0')
             yield L.case()
     # several rejections in a row inside random histories
-    for j in range(80 if tier == 'quick' else 1500):
+    for j in range(500 if tier == 'quick' else 6000):
         pool = POOL_NAMES[j % len(POOL_NAMES)]
         g = HistGen(seed * 613 + j, pool, invalid=0.5)
         g.do('new c0'); g.do('new c9'); g.do('add c9 u90 [] -')
@@ -447,7 +447,7 @@ def c06(tier, seed, z=False, pid='C06'):
         got = dict(B.bettiNumbers(L.ex.objs['c0']))
         L.do('!expect-betti c0 ' + ','.join('%d:%d' % kv for kv in want.items()))
         yield L.case()
-    for j in range(40 if tier == 'quick' else 600):
+    for j in range(250 if tier == 'quick' else 3000):
         n = rng.randrange(6, 10)
         L = Live(POOL_NAMES[j % len(POOL_NAMES)], '%s random complex on %d points seed=%d/%d' % (pid, n, seed, j), judge=('z' if z else None))
         facets = [rng.sample(range(n), rng.randrange(1, 5)) for _ in range(rng.randrange(3, 9))]
@@ -500,7 +500,7 @@ def two_complexes(L, rng, fams):
 def c08(tier, seed):
     rng = random.Random(seed)
     fams = all_complexes(3) + all_complexes(4)
-    n = 120 if tier == 'quick' else 1500
+    n = 600 if tier == 'quick' else 6000
     for j in range(n):
         pool = POOL_NAMES[j % len(POOL_NAMES)]
         L = Live(pool, 'C08 complexes seed=%d/%d' % (seed, j))
@@ -517,7 +517,7 @@ def c08(tier, seed):
         L.do('!same c0 c1')
         L.do('obs c0'); L.do('obs c1'); L.do('alias')
         yield L.case()
-    for j in range(60 if tier == 'quick' else 800):
+    for j in range(300 if tier == 'quick' else 3000):
         g = FiltGen(seed * 977 + j, POOL_NAMES[j % len(POOL_NAMES)])
         g.run(rng.randrange(4, 14))
         g.do('obs f'); g.do('!snap f')
@@ -530,7 +530,7 @@ def c08(tier, seed):
             g.do('json f j1'); g.do('!same f')
         g.do('obs f'); g.do('alias')
         yield g.case('C08 filtration seed=%d' % (seed * 977 + j))
-    for j in range(20 if tier == 'quick' else 200):
+    for j in range(100 if tier == 'quick' else 1000):
         for c in vr_cases(rng, 1):
             c['lines'] = [l for l in c['lines']]
             i = [k for k, l in enumerate(c['lines']) if l.startswith('vr ')][0]
@@ -562,7 +562,7 @@ def c09(tier, seed):
     rng = random.Random(seed)
     fams = all_complexes(3) + all_complexes(4)
     ctors = ['copy', 'deepcopy', 'flag', 'json', 'compose', 'composeinto', 'copyinto', 'addfrom']
-    n = 200 if tier == 'quick' else 2500
+    n = 1200 if tier == 'quick' else 10000
     for j in range(n):
         pool = ['int', 'str'][j % 2] if ctors[j % len(ctors)] == 'json' else POOL_NAMES[j % len(POOL_NAMES)]
         ctor = ctors[j % len(ctors)]
@@ -600,7 +600,7 @@ def c09(tier, seed):
         L.do('!same r')
         L.do('obs r'); L.do('obs c0'); L.do('alias')
         yield L.case()
-    for j in range(80 if tier == 'quick' else 1000):
+    for j in range(400 if tier == 'quick' else 4000):
         g = FiltGen(seed * 389 + j, POOL_NAMES[j % len(POOL_NAMES)])
         g.run(rng.randrange(4, 14))
         kind = j % 3
@@ -626,7 +626,7 @@ def c09(tier, seed):
             g.do('del f ' + rng.choice(vis))
         g.do('!same r'); g.do('obs f'); g.do('obs r')
         yield g.case('C09 filtration seed=%d' % (seed * 389 + j))
-    for c in vr_cases(rng, 30 if tier == 'quick' else 300):
+    for c in vr_cases(rng, 150 if tier == 'quick' else 1500):
         c['lines'] += ['alias', '!noshare c0 v', '!snap c0', 'add v - [] -', 'dset v u0 1 1', '!same c0', 'obs v']
         c['tag'] = 'C09 ' + c['tag']
         yield c
@@ -639,7 +639,7 @@ def c10(tier, seed):
     rng = random.Random(seed)
     f3 = all_complexes(3); f4 = all_complexes(4)
     if tier == 'quick':
-        pairs = list(itertools.product(f3, repeat=2)) + [(rng.choice(f4), rng.choice(f4)) for _ in range(2200)]
+        pairs = list(itertools.product(f3, repeat=2)) + [(rng.choice(f4), rng.choice(f4)) for _ in range(7000)]
     else:
         pairs = list(itertools.product(f4, repeat=2))
     ops = ('le', 'lt', 'ge', 'gt', 'eq', 'ne')
@@ -650,7 +650,7 @@ def c10(tier, seed):
     for b in batch:
         yield b
     # same names, different order or faces; copies; deletions
-    for j in range(150 if tier == 'quick' else 2000):
+    for j in range(1000 if tier == 'quick' else 8000):
         pool = POOL_NAMES[j % len(POOL_NAMES)]
         L = Live(pool, 'C10 perturbation seed=%d/%d' % (seed, j))
         fam = rng.choice(f4)
@@ -689,14 +689,14 @@ def c11(tier, seed):
     rng = random.Random(seed)
     fams = fams_for(tier, rng, 4, 5, None)
     if tier == 'quick':
-        fams = fams + rng.sample(all_complexes(5), 250)
+        fams = fams + rng.sample(all_complexes(5), 900)
     for i, fam in enumerate(fams):
         pool = POOL_NAMES[i % len(POOL_NAMES)]
         lines = build_lines(fam, 'c0', ['faces', 'basis'][i % 2], attrs=(i % 4 == 0))
         lines += ['!snap c0', 'flag c0 f', '!flag c0 f', '!same c0', 'obs f', 'flag f g', 'obs g', '!samefam f g']
         yield dict(lines=lines, pool=pool, tag='C11 flag of %s' % (sorted(map(sorted, fam)),))
     # growing: a flag complex, then edges added and growFlagComplex, against rebuilding from scratch
-    n = 150 if tier == 'quick' else 2000
+    n = 700 if tier == 'quick' else 6000
     for j in range(n):
         pool = POOL_NAMES[j % len(POOL_NAMES)]
         npts = rng.randrange(3, 6 if tier == 'quick' else 8)
@@ -781,7 +781,7 @@ def vr_cases(rng, n, dims=(1, 2, 3)):
 
 def c12(tier, seed):
     rng = random.Random(seed)
-    for c in vr_cases(rng, 400 if tier == 'quick' else 5000):
+    for c in vr_cases(rng, 1500 if tier == 'quick' else 15000):
         c['tag'] = 'C12 ' + c['tag']
         yield c
     # monotonicity in eps and an overridden metric are checked by the oracle module directly
@@ -894,7 +894,7 @@ def filt_queries(g):
 
 def c13(tier, seed, pid='C13'):
     rng = random.Random(seed)
-    n = 300 if tier == 'quick' else 5000
+    n = 1000 if tier == 'quick' else 10000
     for j in range(n):
         pool = POOL_NAMES[j % len(POOL_NAMES)]
         g = FiltGen(seed * 2711 + j, pool)
@@ -924,7 +924,7 @@ def c14(tier, seed):
 # ---------------------------------------------------------------------------------------------------------
 def c15(tier, seed):
     rng = random.Random(seed)
-    fams = all_complexes(3) + (all_complexes(4) if tier == 'thorough' else rng.sample(all_complexes(4), 80))
+    fams = all_complexes(3) + (all_complexes(4) if tier == 'thorough' else rng.sample(all_complexes(4), 167))
     for i, fam in enumerate(fams):
         pool = POOL_NAMES[i % len(POOL_NAMES)]
         base = build_lines(fam, 'c0', ['faces', 'basis'][i % 2], attrs=(i % 2 == 0))
@@ -985,7 +985,7 @@ def c15(tier, seed):
 def c16(tier, seed):
     rng = random.Random(seed)
     f3 = all_complexes(3); f4 = all_complexes(4)
-    pairs = list(itertools.product(f3, repeat=2)) + [(rng.choice(f4), rng.choice(f4)) for _ in range(500 if tier == 'quick' else 12000)]
+    pairs = list(itertools.product(f3, repeat=2)) + [(rng.choice(f4), rng.choice(f4)) for _ in range(3000 if tier == 'quick' else 25000)]
     for i, (fa, fb) in enumerate(pairs):
         pool = POOL_NAMES[i % len(POOL_NAMES)]
         L = Live(pool, 'C16 %s | %s' % (sorted(map(sorted, fa)), sorted(map(sorted, fb))))
@@ -1021,7 +1021,9 @@ def c16(tier, seed):
 # ---------------------------------------------------------------------------------------------------------
 def c17(tier, seed):
     rng = random.Random(seed)
-    fams = fams_for(tier, rng, 4, 5, 1500)
+    fams = fams_for(tier, rng, 4, 5, 2500)
+    if tier == 'quick':
+        fams = fams + rng.sample(all_complexes(5), 300)
     for i, fam in enumerate(fams):
         pool = ['int', 'str', 'intstr'][i % 3]
         L = Live(pool, 'C17 %s' % (sorted(map(sorted, fam)),))
@@ -1038,7 +1040,7 @@ def c17(tier, seed):
         L.do('!snap c0'); L.do('json c0 c1'); L.do('!samecontent c0 c1'); L.do('!jsontext c0'); L.do('!same c0')
         L.do('obs c1'); L.do('q c0 eq c1'); L.do('json c1 c2'); L.do('obs c2')
         yield L.case()
-    for j in range(40 if tier == 'quick' else 400):
+    for j in range(200 if tier == 'quick' else 2000):
         g = FiltGen(seed * 4241 + j, ['int', 'str'][j % 2])
         g.run(rng.randrange(4, 14))
         g.do('setidx f %d' % rng.choice(IDX))
@@ -1072,7 +1074,7 @@ def c18(tier, seed):
                        pool='int', tag='C18 TriangularLattice(%d,%d)' % (r, cl))
     # into existing complexes: arbitrary histories and prior generator calls
     gens = ['ksimplex', 'kvoid', 'kskel', 'ring']
-    for j in range(150 if tier == 'quick' else 2500):
+    for j in range(800 if tier == 'quick' else 8000):
         pool = POOL_NAMES[j % len(POOL_NAMES)]
         g = HistGen(seed * 131 + j, pool)
         g.do('new c0')
@@ -1107,7 +1109,7 @@ def c18(tier, seed):
 # ---------------------------------------------------------------------------------------------------------
 def c19(tier, seed):
     rng = random.Random(seed)
-    fams = all_complexes(3) + (all_complexes(4) if tier == 'thorough' else rng.sample(all_complexes(4), 60))
+    fams = all_complexes(3) + (all_complexes(4) if tier == 'thorough' else rng.sample(all_complexes(4), 167))
     for i, fam in enumerate(fams):
         P = pts_of(fam)
         base = build_lines(fam, 'c0', ['faces', 'basis'][i % 2])
@@ -1121,7 +1123,7 @@ def c19(tier, seed):
             lines += ['!integrate c0 7 0', 'q c0 integrate 7 0']
         lines += ['q c0 euler', 'q c0 counts', '!betti c0']
         yield dict(lines=lines, pool=POOL_NAMES[i % len(POOL_NAMES)], tag='C19 heights on %s' % (sorted(map(sorted, fam)),))
-    for j in range(60 if tier == 'quick' else 800):
+    for j in range(300 if tier == 'quick' else 3000):
         n = rng.randrange(1, 8)
         L = Live(POOL_NAMES[j % len(POOL_NAMES)], 'C19 random seed=%d/%d' % (seed, j))
         facets = [rng.sample(range(n), rng.randrange(1, min(n, 4) + 1)) for _ in range(rng.randrange(1, 7))]
@@ -1146,7 +1148,7 @@ def c19(tier, seed):
 def c20(tier, seed):
     rng = random.Random(seed)
     fams = all_complexes(3) + rng.sample(all_complexes(4), 40)
-    n = 200 if tier == 'quick' else 2500
+    n = 1000 if tier == 'quick' else 8000
     for j in range(n):
         pool = POOL_NAMES[j % len(POOL_NAMES)]
         dim = rng.randrange(1, 5)
